@@ -4,6 +4,7 @@ import gen, vf, oracles
 
 
 def run(ctx):
+    gen.INTEGRAL[0] = True          # real-typed weights are integer-valued here: how fractional weights are rounded is C08's subject
     ctx.trusted = ['Coq 8.16.1 kernel; all theorems closed under the global context',
                    'K-RNG: the OCaml driver\'s mt19937 + generate_canonical (the stream fed to the model) vs utils::RandomGenerator<> and an independently constructed std::mt19937 + uniform_real_distribution<double>, bit for bit',
                    'K-INIT: the state at the realization_start hook of the real Solver::run vs the extracted model, all 8 variants, r <= 4',
